@@ -211,7 +211,7 @@ theorem flushData_ok {cfg : Cfg} {d d' : Dec} (h : flushData cfg d = .ok d') : d
   all_goals first | (cases h; done) | (cases h; rfl)
 
 theorem afterType_ok {d d' : Dec} {t : ChunkType} {len : Nat} {st : St} (h : afterType d t len = .ok (st, d')) :
-    st = .u32 .seqNo [] ∨ st = .imageData t ∨ st = .readChunkData t := by
+    st = .u32 .seqNo [] ∨ st = .imageData t ∨ st = .readChunkData t ∨ st = .parseChunkData t := by
   unfold afterType at h
   by_cases h1 : t = fdAT
   · rw [if_pos h1] at h
@@ -223,7 +223,7 @@ theorem afterType_ok {d d' : Dec} {t : ChunkType} {len : Nat} {st : St} (h : aft
       repeat' split at h
       all_goals first | (cases h; done) | (cases h; simp)
     · rw [if_neg h2] at h
-      cases h; simp
+      split at h <;> (cases h; simp)
 
 theorem parseU32_ok {cfg : Cfg} {d d' : Dec} {kind : U32Kind} {b0 b1 b2 b3 : UInt8} {ev : Ev}
     (h : parseU32 cfg d kind b0 b1 b2 b3 = .ok (ev, d')) :
@@ -256,7 +256,7 @@ theorem parseU32_ok {cfg : Cfg} {d d' : Dec} {kind : U32Kind} {b0 b1 b2 b3 : UIn
         · cases h
         · rename_i st d1 ha
           cases h
-          rcases afterType_ok ha with h1 | h1 | h1 <;> subst h1 <;> simp [rank] <;> (repeat' split) <;> omega
+          rcases afterType_ok ha with h1 | h1 | h1 | h1 <;> subst h1 <;> simp [rank] <;> (repeat' split) <;> omega
   | crc t =>
     simp only [parseU32] at h
     repeat' split at h
